@@ -20,6 +20,8 @@ LEVEL = 'model_checking'
 DATASETS = {
     'zeros5': [b'a', b'a\x00', b'ab', b'b', b'b\x00\x00'],
     'plain3': [b'k1', b'k2', b'k3'],
+    # str ids (in-memory datasets accept them): a trailing NUL character is part of the id, 'a' and 'a\x00' are two clients
+    'strzeros5': ['a', 'a\x00', 'ab', 'b', 'b\x00\x00'],
     'many60': [b'm%03d' % i + (b'\x00' if i % 7 == 0 else b'') for i in range(60)],
     # a population large enough for "large population / small cohort" code paths (N > 10000, cohort <= N // 50)
     'big12000': [b'g%05d' % i + (b'\x00' if i % 97 == 0 else b'') for i in range(12000)],
@@ -37,13 +39,19 @@ def build_fd(name, impl, tmp):
     n = (k * 2 + 1) % 4
     table[cid] = {'x': np.arange(off, off + n, dtype=np.int32)}
     off += n
+  if isinstance(ids[0], str):
+    assert impl in ('mem', 'sub_dup'), impl
+    obs_table = {cid.encode(): v for cid, v in table.items()}   # observe() reports str ids as their UTF-8 bytes
+  else:
+    obs_table = table
   if impl == 'mem':
-    return fedjax.InMemoryFederatedData(table), table
+    return fedjax.InMemoryFederatedData(table), obs_table
   if impl == 'sub_dup':
     # the population given as a subset whose id list names some clients twice (two overlapping groups concatenated)
     from fedjax.core import federated_data as fdm
-    extra = {b'zz%d' % k: {'x': np.arange(1, dtype=np.int32)} for k in range(2)}
-    return fdm.SubsetFederatedData(fedjax.InMemoryFederatedData({**table, **extra}), list(ids) + list(ids[:2]) + [ids[-1]]), table
+    zz = 'zz%d' if isinstance(ids[0], str) else b'zz%d'
+    extra = {zz % k: {'x': np.arange(1, dtype=np.int32)} for k in range(2)}
+    return fdm.SubsetFederatedData(fedjax.InMemoryFederatedData({**table, **extra}), list(ids) + list(ids[:2]) + [ids[-1]]), obs_table
   path = os.path.join(tmp, name + '.sqlite')
   if not os.path.exists(path):
     with sq.SQLiteFederatedDataBuilder(path) as b:
@@ -56,7 +64,7 @@ def observe(sample):
   for cid, ds, key in sample:
     import jax
     kd = np.asarray(jax.random.key_data(key) if hasattr(key, 'dtype') and 'key' in str(key.dtype) else key)
-    out.append((bytes(cid), np.asarray(ds.all_examples()['x']).tolist(), kd.tolist()))
+    out.append((cid.encode() if isinstance(cid, str) else bytes(cid), np.asarray(ds.all_examples()['x']).tolist(), kd.tolist()))
   return out
 
 
@@ -360,6 +368,8 @@ def plan(ctx):
     if len(ids) > 1000:
       continue
     for impl in ('mem', 'sql', 'sub_dup'):
+      if impl == 'sql' and isinstance(ids[0], str):
+        continue   # the SQLite format stores bytes ids only
       for seed in (0, 1, 7):
         for k in (range(1, len(ids) + 1) if len(ids) < 10 else (1, 7, len(ids) - 1, len(ids))):
           d = depth if len(ids) < 10 else 2
@@ -382,10 +392,11 @@ def plan(ctx):
   sc = [{'dataset': name, 'impl': impl, 'k': k, 'buffers': [1, 2, len(ids) + 1], 'stream_seeds': [0, 3],
          'max_start': 4}
         for name, ids in DATASETS.items() if len(ids) <= 1000 for impl in ('mem', 'sql')
+        if not (impl == 'sql' and isinstance(ids[0], str))
         for k in (range(1, len(ids) + 1) if len(ids) < 10 else (7, len(ids)))]
   ctx.pmap('streaming', sc, chunk=2)
   ctx.run('random_states', [{'pairs': [[0, 0], [0, 1], [7, 1]]}, {'pairs': [[3, 2], [3, 5], [4, 2], [3, 0]]}])
   ctx.pmap('threads', [{'samples': 1, 'bound': 2 if th else 1}, {'samples': 2, 'bound': 1}], chunk=1)
-  ctx.pmap('other_process', [{'dataset': name, 'impls': ['mem', 'sql', 'mem+slice', 'sql+slice'], 'ks': [1, len(ids) - 1, len(ids)], 'seed': sd + ctx.seed,
+  ctx.pmap('other_process', [{'dataset': name, 'impls': ['mem', 'mem+slice'] + ([] if isinstance(ids[0], str) else ['sql', 'sql+slice']), 'ks': [1, len(ids) - 1, len(ids)], 'seed': sd + ctx.seed,
                               'hashseeds': [hs]} for name, ids in DATASETS.items() if len(ids) < 10 for sd in (0, 7)
                              for hs in ((1, 2, 3, 12345) if th else (1, 2))], chunk=1)
